@@ -303,6 +303,31 @@ fn observe_all(s: &dyn Store, refs: &HashMap<u64, PlainRef>, ids: &[u64]) -> (Ve
     (res, get)
 }
 
+/// every object number the caller does not hold (catalog, page tree, containers, the cross-reference streams written by
+/// save) either reads or is reported absent / free; anything else means a table entry that points at the wrong place
+fn writer_objects(run: &mut Run, s: &dyn Store, refs: &HashMap<u64, PlainRef>, promises: &HashMap<u64, PromisedRef<Primitive>>, k: usize, stage: &str) {
+    let held: Vec<u64> = refs.values().map(|r| r.id).chain(promises.values().map(|p| p.get_inner().id)).collect();
+    let top = held.iter().copied().max().unwrap_or(0).max(8) + 12;
+    for id in 1..=top {
+        if held.contains(&id) { continue; }
+        match guarded(|| s.resolve(PlainRef { id, gen: 0 })) {
+            Outcome::Done(Ok(_)) => {}
+            Outcome::Done(Err(e)) => {
+                let absent = matches!(e, PdfError::FreeObject { .. } | PdfError::NullRef { .. } | PdfError::UnspecifiedXRefEntry { .. })
+                    || e.is_missing_object();
+                if !absent {
+                    run.fail(&format!("writer-object:{}", stage), k, json!({"id": id, "observed": err_json(&e)}));
+                    return;
+                }
+            }
+            Outcome::Panic(p) => {
+                run.fail(&format!("writer-object:{}:panic:{}", stage, p.sym), k, json!({"id": id, "observed": panic_json(&p)}));
+                return;
+            }
+        }
+    }
+}
+
 fn op_class(case: &Value, upto: usize, id: u64) -> String {
     // ops applied to this id so far, e.g. "cmp:update,save,update"
     let nb = case["nb"].as_u64().unwrap();
@@ -440,10 +465,14 @@ pub fn replay_case(rep: &mut Report, case: &Value, ci: usize, layout: usize, tmp
                 run.fail("prefix", k, json!({"old_len": prev_bytes.len(), "new_len": bytes.len()}));
             }
             prev_bytes = bytes.clone();
+            writer_objects(&mut run, &*s, &refs, &promises, k, "open");
             // reload with fresh options, uncached and cached
             for rc in [false, true] {
                 match guarded(|| open_store(bytes.clone(), rc, tmp)) {
                     Outcome::Done(Ok(s2)) => {
+                        // the writer's own objects (the cross-reference stream of every revision it wrote) are entries of the
+                        // table like any other: each number the caller does not hold reads as an object or is absent
+                        writer_objects(&mut run, &*s2, &refs, &promises, k, "reload");
                         let (res2, get2) = observe_all(&*s2, &refs, &ids);
                         for (j, i) in ids.iter().enumerate() {
                             let want = norm(&ideal[*i as usize - 1]);
